@@ -25,6 +25,7 @@ TStep == /\ l < Len(Traces[tid]) /\ ~Ev.raised
               [] A[1] = "RemoveNode" -> S' = OpRemoveNode(S, NodeAt(A[2])) /\ Did(<<"RemoveNode", A[2]>>)
               [] A[1] = "AppendIo" -> S' = [S EXCEPT !.io = Append(@, NodeAt(A[2]))] /\ Did(<<"AppendIo", A[2]>>)
               [] A[1] = "Elim" -> S' = FoldLeft(ElimOne, S, S.forder) /\ Did(<<"Elim">>)
+              [] A[1] = "Subst" -> S' = OpSubst(S, NodeAt(A[2]), IMPLS[A[3] + 1]) /\ Did(<<"Subst", A[2], A[3]>>)
               [] A[1] = "Copy" -> Copy
               [] A[1] = "Pickle" -> Pickle
 TSpec == TInit /\ [][TStep]_tvars
